@@ -16,7 +16,7 @@ VH = TARGET + "/vh/release/vh"
 VH_DEBUG = TARGET + "/vh/verif-debug/vh"
 SHIM = TARGET + "/libfsmon.so"
 SHIM_ALLOC = TARGET + "/libfsmon_alloc.so"
-WORK = V + "/.work"
+WORK = os.environ.get("VERIF_WORK", V + "/.work")
 NCPU = min(16, os.cpu_count() or 4)
 
 
@@ -208,12 +208,13 @@ def finish(res, tier):
             kf[sig] = n
         else:
             new[sig] = n
-    os.makedirs(V + "/evidence", exist_ok=True)
-    os.makedirs(V + "/replays", exist_ok=True)
+    OUT = os.environ.get("VERIF_OUT", V)  # the mutation self-test redirects evidence and replays
+    os.makedirs(OUT + "/evidence", exist_ok=True)
+    os.makedirs(OUT + "/replays", exist_ok=True)
     replay_paths = {}
     for sig in new:
         safe = "".join(c if c.isalnum() or c in "-_" else "_" for c in sig)[:80]
-        p = "%s/replays/%s-%d-%s.json" % (V, res.pid, seed(), safe)
+        p = "%s/replays/%s-%d-%s.json" % (OUT, res.pid, seed(), safe)
         wit = [v for v in res.violations if v["sig"] == sig]
         json.dump({"property": res.pid, "signature": sig, "seed": seed(), "tier": tier, "count": new[sig], "witnesses": wit}, open(p, "w"), indent=1, default=str)
         replay_paths[sig] = p
@@ -241,9 +242,9 @@ def finish(res, tier):
         "wall_s": round(time.time() - res.t0, 2),
         "violations": int(sum(new.values())),
     }
-    tmp = "%s/evidence/%s.json.tmp" % (V, res.pid)
+    tmp = "%s/evidence/%s.json.tmp" % (OUT, res.pid)
     json.dump(ev, open(tmp, "w"), indent=1, default=str)
-    os.replace(tmp, "%s/evidence/%s.json" % (V, res.pid))
+    os.replace(tmp, "%s/evidence/%s.json" % (OUT, res.pid))
     for sig, n in kf.items():
         print("KNOWN-FINDING: property=%s %s (%s; seen %d times this run)" % (res.pid, sig, known_sigs[sig].get("what", ""), n))
     for sig, n in new.items():
